@@ -138,33 +138,43 @@ theorem compile_isEmpty_iff (c : Ctx) (vs : VirtualService) : (compile c vs).isE
   · simp only [he, ↓reduceIte, true_iff] at h
     simp [h]
 
-/-- What the virtual host of service `s` decides: its most specific VirtualService when that one has a
-    rule for this proxy, the default route otherwise. -/
+theorem mem_of_vsChoiceModel (c : Ctx) (vss : List VirtualService) (hostname : String) (vs : VirtualService)
+    (h : vsChoiceModel c vss hostname = some vs) : vs ∈ vss ∧ (compile (sidecarCtx c) vs).isEmpty = false := by
+  unfold vsChoiceModel at h
+  dsimp only at h
+  split at h
+  · have hm := List.mem_of_find?_eq_some h
+    have hp := List.find?_some h
+    exact ⟨(List.mem_filter.mp hm).1, by simpa using hp⟩
+  · cases hv : vsForModel vss hostname with
+    | none => rw [hv] at h; cases h
+    | some v =>
+      rw [hv] at h
+      have hmem : v ∈ vss := by
+        unfold vsForModel at hv
+        cases hm : mostSpecificHostMatch hostname (fqdnHosts vss) (wildHosts vss) with
+        | none => rw [hm] at hv; cases hv
+        | some h' => rw [hm] at hv; exact List.mem_of_find?_eq_some hv
+      simp only [Option.filter] at h
+      split at h
+      · cases h; rename_i hp; exact ⟨hmem, by simpa using hp⟩
+      · cases h
+
+/-- What the virtual host of service `s` decides: the chosen VirtualService, the default route otherwise. -/
 theorem routesForSvc_correct (re : Regex) (hre : DotStar re) (c : Ctx) (vss : List VirtualService) (s : MeshSvc)
     (req : Request) (hwf : req.wf = true) (hn : (c.services.map (·.host)).Nodup)
     (hside : ∀ vs ∈ vss, sideConditions re vs req = true ∧ destsOK c vs = true) :
     evalRoutes re (routesForSvc c vss s) req =
-      (match vsForModel vss s.host with
-       | some vs => if vsApplies c vs then vsSpec re c vs req else .forward [(subsetKey "" s.host c.listenPort, 1)]
+      (match vsChoiceModel c vss s.host with
+       | some vs => vsSpec re c vs req
        | none => .forward [(subsetKey "" s.host c.listenPort, 1)]) := by
   unfold routesForSvc
-  cases hv : vsForModel vss s.host with
+  cases hv : vsChoiceModel c vss s.host with
   | none => exact evalRoutes_default re c.listenPort s.host req hwf
   | some vs =>
-    have hmem : vs ∈ vss := by
-      unfold vsForModel at hv
-      cases hm : mostSpecificHostMatch s.host (fqdnHosts vss) (wildHosts vss) with
-      | none => rw [hm] at hv; cases hv
-      | some h =>
-        rw [hm] at hv
-        exact List.mem_of_find?_eq_some hv
+    have hmem := (mem_of_vsChoiceModel c vss s.host vs hv).1
     simp only
-    rw [compile_isEmpty_iff, vsApplies_sidecarCtx]
-    cases ha : vsApplies c vs
-    · simp only [Bool.not_false, ↓reduceIte, Bool.false_eq_true]
-      exact evalRoutes_default re c.listenPort s.host req hwf
-    · simp only [Bool.not_true, Bool.false_eq_true, ↓reduceIte]
-      rw [vs_compile_correct re hre (sidecarCtx c) vs req (hside vs hmem).1, vsSpec_sidecar re c vs req hn (hside vs hmem).2]
+    rw [vs_compile_correct re hre (sidecarCtx c) vs req (hside vs hmem).1, vsSpec_sidecar re c vs req hn (hside vs hmem).2]
 
 /-! ## most specific VirtualService: the index lookup of the code = the declarative choice of the spec -/
 
@@ -293,6 +303,55 @@ theorem vsForModel_eq_vsFor (vss : List VirtualService) (hostname : String)
     rw [hfil]
     rfl
 
+theorem applies_model (c : Ctx) : (fun v : VirtualService => !(compile (sidecarCtx c) v).isEmpty) = vsApplies c := by
+  funext v
+  rw [compile_isEmpty_iff, vsApplies_sidecarCtx]
+  simp
+
+/-- The wrapper logic of the code chooses the VirtualService the spec names (given the F-C12-6 side
+    condition for wildcard hosts). -/
+theorem vsChoice_eq (c : Ctx) (vss : List VirtualService) (hostname : String)
+    (hl : ∀ v ∈ vss, ∀ h ∈ v.hosts, lower h = h) (hnw : isWildcarded hostname = false)
+    (hw : ((longestStr (matchingWildcards vss hostname)).bind (oldestWithHost vss)).filter (vsApplies c)
+      = (match longestStr (matchingWildcards vss hostname) with
+         | some h => (vss.filter (fun v => v.hosts.contains h)).find? (vsApplies c)
+         | none => none)) :
+    vsChoiceModel c vss hostname = vsChoice c vss hostname := by
+  unfold vsChoiceModel vsChoice
+  dsimp only
+  have hpred : ∀ v ∈ vss, v.hosts.any (fun h => !isWildcarded h && lower h == hostname) = v.hosts.contains hostname := by
+    intro v hv
+    rw [Bool.eq_iff_iff, List.any_eq_true, List.contains_iff_mem]
+    constructor
+    · rintro ⟨h, hh, hc⟩
+      simp only [Bool.and_eq_true, beq_iff_eq] at hc
+      rw [hl v hv h hh] at hc
+      rw [← hc.2]; exact hh
+    · intro hm
+      exact ⟨hostname, hm, by simp [hnw, hl v hv hostname hm]⟩
+  have hfil : vss.filter (fun v => v.hosts.any (fun h => !isWildcarded h && lower h == hostname))
+      = vss.filter (fun v => v.hosts.contains hostname) := by
+    apply List.filter_congr
+    intro v hv; exact hpred v hv
+  rw [hfil, applies_model]
+  by_cases he : (vss.filter (fun v => v.hosts.contains hostname)).isEmpty = true
+  · simp only [he, Bool.not_true, Bool.false_eq_true, ↓reduceIte]
+    -- no VirtualService lists the hostname: the index is the wildcard index
+    have hnone : vss.find? (fun v => v.hosts.any (fun h => !isWildcarded h && lower h == hostname)) = none := by
+      rw [List.find?_eq_none]
+      intro v hv hc
+      have : v ∈ vss.filter (fun v => v.hosts.contains hostname) := List.mem_filter.mpr ⟨hv, by rw [← hpred v hv]; exact hc⟩
+      rw [List.isEmpty_iff] at he
+      rw [he] at this; simp at this
+    have := vsForModel_eq_vsFor vss hostname hl hnw
+    unfold vsFor at this
+    rw [hnone] at this
+    simp only at this
+    rw [this]
+    exact hw
+  · have he' : (vss.filter (fun v => v.hosts.contains hostname)).isEmpty = false := by simpa using he
+    simp only [he', Bool.not_false, ↓reduceIte]
+
 /-! ## virtual-host selection on the composed configuration -/
 
 theorem mem_insertSvcByHost (x s : MeshSvc) (l : List MeshSvc) : x ∈ insertSvcByHost s l ↔ x = s ∨ x ∈ l := by
@@ -321,16 +380,12 @@ theorem mem_vhostOrder (c : Ctx) (m : Mesh) (s : MeshSvc) : s ∈ vhostOrder c m
     by_cases hw : hasWrapper c m.vss s = true
     · left
       unfold hasWrapper at hw
-      cases hv : vsForModel m.vss s.host with
+      cases hv : vsChoiceModel c m.vss s.host with
       | none => rw [hv] at hw; cases hw
       | some v =>
-        have hmem : v ∈ m.vss := by
-          unfold vsForModel at hv
-          cases hm : mostSpecificHostMatch s.host (fqdnHosts m.vss) (wildHosts m.vss) with
-          | none => rw [hm] at hv; cases hv
-          | some h' => rw [hm] at hv; exact List.mem_of_find?_eq_some hv
+        have hmem : v ∈ m.vss := (mem_of_vsChoiceModel c m.vss s.host v hv).1
         refine ⟨v, hmem, h, ?_⟩
-        have hw' : hasWrapper c m.vss s = true := by unfold hasWrapper; rw [hv]; rw [hv] at hw; exact hw
+        have hw' : hasWrapper c m.vss s = true := by unfold hasWrapper; rw [hv]; rfl
         simp [hw', hv]
     · right
       exact ⟨h, by simpa using hw⟩
@@ -388,10 +443,10 @@ def meshSide (re : Regex) (c : Ctx) (m : Mesh) (req : Request) : Bool :=
     that names no service of the port. -/
 theorem sidecar_rds_correct (re : Regex) (hre : DotStar re) (c : Ctx) (m : Mesh) (req : Request)
     (hcert : rdsCert c m = true) (hside : meshSide re c m req = true) :
-    evalRouteConfig re (sidecarRDS c m) req = meshSpec re c m req := by
+    evalRouteConfig re true (sidecarRDS c m) req = meshSpec re c m req := by
   unfold rdsCert at hcert
   simp only [Bool.and_eq_true] at hcert
-  obtain ⟨⟨⟨hnd, hnames⟩, hplain⟩, hhyg⟩ := hcert
+  obtain ⟨⟨⟨⟨hnd, hnames⟩, hplain⟩, hhyg⟩, hwild⟩ := hcert
   unfold meshSide at hside
   simp only [Bool.and_eq_true] at hside
   obtain ⟨hwf, hvs⟩ := hside
@@ -428,15 +483,16 @@ theorem sidecar_rds_correct (re : Regex) (hre : DotStar re) (c : Ctx) (m : Mesh)
   unfold certNames at hnames
   rw [List.all_eq_true] at hnames
   rw [hrds]
-  unfold evalRouteConfig meshSpec
+  unfold evalRouteConfig meshSpec hostForMatching
   dsimp only
+  simp only [↓reduceIte]
   cases hfind : (m.svcs.filter (fun s => s.ports.contains c.listenPort)).find?
-      (fun s => (svcNames s m.proxyDomain).any (fun n => lower n == lower req.authority)) with
+      (fun s => (svcNames s m.proxyDomain).any (fun n => lower n == lower (stripPort req.authority))) with
   | some s =>
     have hs : s ∈ onPort c m := List.mem_of_find?_eq_some hfind
     have hany := List.find?_some hfind
     obtain ⟨n, hn, hne⟩ := List.any_eq_true.mp hany
-    have hne' : lower n = lower req.authority := by simpa using hne
+    have hne' : lower n = lower (stripPort req.authority) := by simpa using hne
     -- the name is one of the generated domains
     have hnm := hnames s hs
     simp only [Bool.and_eq_true] at hnm
@@ -459,15 +515,18 @@ theorem sidecar_rds_correct (re : Regex) (hre : DotStar re) (c : Ctx) (m : Mesh)
         simp [allDomains, catchAllVHost] at hb
         rw [hb]; exact star_facts.2.2
       exact this.1.1.2 (hab.trans hb')
-    rw [select_unique _ (plainVHost (svcInput c m s)) d req.authority huniq hv hd' (by rw [← hne', hde])]
+    rw [select_unique _ (plainVHost (svcInput c m s)) d (stripPort req.authority) huniq hv hd' (by rw [← hne', hde])]
     simp only [plainVHost, svcInput, Bool.false_and, Bool.false_eq_true, ↓reduceIte]
     rw [routesForSvc_correct re hre c m.vss s req hwf hnodup
         (fun vs hvs' => by have := hvs vs hvs'; simpa [Bool.and_eq_true] using this)]
-    rw [vsForModel_eq_vsFor m.vss s.host hlow' (by simpa using hnw s (List.mem_filter.mp hs).1)]
-    cases vsFor m.vss s.host <;> rfl
+    unfold certWild at hwild
+    rw [List.all_eq_true] at hwild
+    rw [vsChoice_eq c m.vss s.host hlow' (by simpa using hnw s (List.mem_filter.mp hs).1) (of_decide_eq_true (hwild s hs))]
+    unfold decideFor
+    cases vsChoice c m.vss s.host <;> rfl
   | none =>
     have hno := List.find?_eq_none.mp hfind
-    have hfb : selectVHost ((vhostOrder c m).map (fun s => plainVHost (svcInput c m s)) ++ [catchAllVHost]) req.authority
+    have hfb : selectVHost ((vhostOrder c m).map (fun s => plainVHost (svcInput c m s)) ++ [catchAllVHost]) (stripPort req.authority)
         = some catchAllVHost := by
       apply select_fallback
       intro p hp
@@ -476,7 +535,7 @@ theorem sidecar_rds_correct (re : Regex) (hre : DotStar re) (c : Ctx) (m : Mesh)
       simp only [Bool.and_eq_true, bne_iff_ne, ne_eq, Bool.not_eq_true'] at hpl
       refine ⟨?_, ?_, ?_, ?_⟩
       · -- an equal domain would be a name of `s`
-        cases hq : (lower p.2 == lower req.authority)
+        cases hq : (lower p.2 == lower (stripPort req.authority))
         · rfl
         · exfalso
           have hnm := hnames s hs
@@ -508,13 +567,13 @@ def exMeshCtx : Ctx :=
 example : rdsCert exMeshCtx exMesh = true := by decide +kernel
 example : meshSide exRe exMeshCtx exMesh { exReq with authority := "Reviews" } = true := by decide +kernel
 /-- the short name `reviews` (any case) reaches the VirtualService of the proxy's own namespace ... -/
-example : evalRouteConfig exRe (sidecarRDS exMeshCtx exMesh) { exReq with authority := "Reviews" } =
+example : evalRouteConfig exRe true (sidecarRDS exMeshCtx exMesh) { exReq with authority := "Reviews:9080" } =
     .forward [("outbound|9080|v2|reviews.default.svc.cluster.local", 20),
               ("outbound|9080|v1|reviews.default.svc.cluster.local", 80)] := by decide +kernel
 /-- ... a service of another namespace is not reachable by its bare name (passthrough) but by `name.ns`. -/
-example : evalRouteConfig exRe (sidecarRDS exMeshCtx exMesh) { exReq with authority := "ratings" } =
+example : evalRouteConfig exRe true (sidecarRDS exMeshCtx exMesh) { exReq with authority := "ratings" } =
       .forward [("PassthroughCluster", 1)]
-    ∧ evalRouteConfig exRe (sidecarRDS exMeshCtx exMesh) { exReq with authority := "ratings.other" } =
+    ∧ evalRouteConfig exRe true (sidecarRDS exMeshCtx exMesh) { exReq with authority := "ratings.other" } =
       .forward [("outbound|9080||ratings.other.svc.cluster.local", 1)] := by decide +kernel
 
 end IstioModel.C12
